@@ -131,12 +131,52 @@ def invalid_case(rng):
             t.pop(cyc("miss", ["vi", "io", z]))
             why = "table missing a key"
         elif cls == "table_shape":
-            if rng.random() < 0.5:
+            form = cyc("tshape" + kind + z, ["row_short", "extra_row", "transposed", "folded", "flat", "scalar_z", "scalar_vi",
+                                            "scalar_io", "empty", "ragged", "nonnumeric"])
+            if form == "row_short":
                 t[z] = [row[:-1] for row in t[z]]
                 why = "table row shorter than io axis"
-            else:
+            elif form == "extra_row":
                 t[z] = t[z] + [t[z][0]]
                 why = "more table rows than vi entries"
+            elif form == "transposed":  # same number of entries, wrong shape
+                t = good_table(rng, z, two_d=True)
+                t["vi"], t["io"] = [5.0, 12.0], [0.01, 0.1, 0.5]
+                t[z] = [[t[z][0][0], t[z][0][1]] for _ in range(3)]
+                why = "transposed table (len(io) rows of len(vi) entries)"
+            elif form == "folded":  # same number of entries, wrong shape
+                t = good_table(rng, z, two_d=False)
+                t["vi"], t["io"] = [12.0], [0.01, 0.1, 0.5, 1.0]
+                x = t[z][0][0]
+                t[z] = [[x, x], [x, x]]
+                why = "single-vi table folded into 2x2 for 4 io values"
+            elif form == "flat":
+                t[z] = [x for row in t[z] for x in row]
+                why = "table given as a flat list"
+            elif form == "scalar_z":
+                t[z] = t[z][0][0]
+                why = "scalar where the table rows belong"
+            elif form == "scalar_vi":
+                t["vi"] = t["vi"][0]
+                why = "scalar vi axis"
+            elif form == "scalar_io":
+                t["io"] = t["io"][0]
+                why = "scalar io axis"
+            elif form == "empty":
+                t["vi"], t["io"], t[z] = [], [], []
+                why = "empty table"
+            elif form == "ragged":
+                t = good_table(rng, z, two_d=True)
+                t[z][-1] = t[z][-1][:-1]
+                why = "ragged table rows"
+            else:
+                key = cyc("tnn", ["vi", "io", z])
+                bad = cyc("tnnv", ["a", None, "0.5", "x"])
+                if key == z:
+                    t[z][0][0] = bad
+                else:
+                    t[key][0] = bad
+                why = "non-numeric entry %r in %s" % (bad, key)
         else:
             if rng.random() < 0.5:
                 t["io"][-1] = t["io"][-2]
